@@ -349,6 +349,9 @@ impl<'a> W2<'a> {
 
 pub fn exec_w2(script: &W2Script, focus: Option<&'static str>) -> W2Report {
     simalloc::begin_run(script.placement);
+    // collections are mirrored on std, which has no 16 MiB machine: a megabyte text that doubles a
+    // few times must not end in a simulated out-of-memory that std would not see
+    simalloc::set_machine_bytes(1 << 31);
     track::reset_ledger();
     let cap = script.capacity;
     let b = match simalloc::arena_call(0, || if cap == 0 { Bump::new() } else { Bump::with_capacity(cap) }) {
